@@ -90,14 +90,15 @@ def unit_geometry(j):
         paths = ctor_paths(j, box)
     except Unsupported as u_:
         O.append(core.Obl('C11/geometry=%d/extraction' % j, 'open', 'extraction', 0.0, detail=str(u_)[:300])); return res
-    seen = {}
+    seen = {}; cnt = {}
     for p in paths:
         if p.outcome != 'return': continue
         o = p.value; A = o.attrs
         typ, sing = A.get('solution_type'), A.get('special_singularity')
         key = (typ, sing); seen[key] = seen.get(key, 0) + 1
         if sing != 'none': continue                                    # thin parameter sets (assumption 3)
-        base = 'C11/geometry=%d/%s' % (j, typ)
+        cnt[typ] = cnt.get(typ, 0) + 1
+        base = 'C11/geometry=%d/%s%s' % (j, typ, '' if cnt[typ] == 1 else '~path%d' % cnt[typ])
         hy = [gam > 1, om < j] + list(p.pc)
         xg2 = sp.sympify(A['xg2']); gpogm = sp.sympify(A['gpogm']); gm1 = gam - 1
         kw_w = {'standard': {'geometry': j, 'gamma': 1.4, 'omega': {1: 0.3, 2: 0.5, 3: 1.0}[j], 'rho0': 1.3, 'eblast': 0.7}, 'vacuum': {'geometry': j, 'gamma': 1.4, 'omega': {1: 0.9, 2: 1.9, 3: 2.8}[j], 'rho0': 1.3, 'eblast': 0.7},
